@@ -27,10 +27,10 @@ def gen_descriptions(rnd, tier):
         if k == 'extNeg':
             return ('extNeg', b8(), uid(), bytes(rnd.randrange(256) for _ in range(rnd.choice([0, 1, 2, 6]))))
         if k == 'userId':
-            return ('userId', b8(), rnd.choice([1, 2, 3, 4, 5]), rnd.choice([0, 1]), pdugen.text(rnd, rnd.choice([0, 1, 9])).encode(),
-                    pdugen.text(rnd, rnd.choice([0, 4])).encode())
+            return ('userId', b8(), rnd.choice([1, 2, 3, 4, 5]), rnd.choice([0, 1]), pdugen.utext(rnd, rnd.choice([0, 1, 9])).encode(),
+                    pdugen.utext(rnd, rnd.choice([0, 4])).encode())
         if k == 'userIdAc':
-            return ('userIdAc', b8(), pdugen.text(rnd, rnd.choice([0, 7])).encode())
+            return ('userIdAc', b8(), pdugen.utext(rnd, rnd.choice([0, 7])).encode())
         return ('generic', rnd.choice([0x57, 0x5A, 0x60, 0x7F, 0xFF, 0x01]), b8(),
                 bytes(rnd.randrange(256) for _ in range(rnd.choice([0, 1, 5, 40]))))
 
